@@ -324,6 +324,9 @@ def templates(cls):
         "insert_select": [["into", [["src", "U"]]], ["from_", [["src", "T"]]], ["select", [A, B]], ["where", [["gt", B, ["raw", 0]]]]],
         # a VALUES row of an insert INTO another table holds a scalar subquery over OLD
         "insert_values_subquery": [["into", [["src", "U"]]], ["columns", [["py", "a"], ["py", "b"]]], ["insert", [["subq", SUB_T], ["raw", 2]]], ["insert", [["raw", 3], ["subq", SUB_T]]]],
+        # date arithmetic: an Interval (a Node that is not a Term) next to fields of OLD
+        "interval_arith": [["from_", [["src", "T"]]], ["select", [["add", A, ["interval", {"days": 1}]]]], ["where", [["gt", B, ["sub", ["fn", "Now", []], ["interval", {"hours": 2, "minutes": 5}]]]]]],
+        "interval_fn_arg": [["from_", [["src", "T"]]], ["join", [["src", "U"], ["enum", "JoinType", "inner"]], {}, ["on", [["eq", UA, A]]]], ["select", [["fn", "Coalesce", [["add", B, ["interval", {"weeks": 1}]], UA]]]]],
         "update_set": [["update", [["src", "T"]]], ["set", [A, ["add", B, ["raw", 1]]]], ["where", [["eq", A, ["raw", 1]]]]],
         "update_set_value_other": [["update", [["src", "U"]]], ["from_", [["src", "T"]]], ["set", [["col", "U", "b"], B]], ["where", [["eq", UA, A]]]],
         "delete": [["from_", [["src", "T"]]], ["delete", []], ["where", [["eq", A, ["raw", 1]]]]],
